@@ -97,6 +97,7 @@ fn fam_empty_rows(r: &mut Rng) -> LinearModel {
 }
 
 pub fn family(r: &mut Rng, i: usize) -> (LinearModel, &'static str) {
+    if i % 16 == 15 { return (crate::props::c04::variable_free(r), "variable-free"); }
     match i % 8 {
         0 => (fam_free_face(r), "free-face"),
         1 => (fam_both_infeasible(r), "primal-dual-infeasible"),
@@ -109,7 +110,7 @@ pub fn family(r: &mut Rng, i: usize) -> (LinearModel, &'static str) {
     }
 }
 
-pub fn cases_for(lm: &LinearModel, fam: &str, out: &mut Vec<Case>) {
+pub fn cases_for(lm: &LinearModel, fam: &str, variants: &gen_lp::Variants, out: &mut Vec<Case>) {
     let lms = sx::lin_model(lm);
     let opts = Opts::default();
     let cont = gen_lp::is_continuous(lm);
@@ -127,10 +128,10 @@ pub fn cases_for(lm: &LinearModel, fam: &str, out: &mut Vec<Case>) {
         let mut c = Case::default();
         c.imp = res.clone();
         c.req = match kind {
-            SolverKind::Milp => gen_lp::mlp(&raw_milp).map(|r| format!("milp-wrap {} {}", lms, r)),
+            SolverKind::Milp => gen_lp::mlp(&raw_milp).map(|r| format!("{} {} {}", if variants.milp_reads_status { "milp-wrap-fixed" } else { "milp-wrap" }, lms, r)),
             SolverKind::Auto => gen_lp::mlp(&raw_milp).map(|r| format!("auto-wrap {} {}", lms, r)),
             SolverKind::MicroLp => gen_lp::mlp(&call(SolverKind::RawMicroLp)).map(|r| format!("microlp-wrap {} {}", lms, r)),
-            SolverKind::Clarabel => gen_lp::clarabel(&call(SolverKind::RawClarabel)).map(|r| format!("clarabel-wrap {} {}", lms, r)),
+            SolverKind::Clarabel => gen_lp::clarabel_req(lm, &lms, variants, if hung.get() { Duration::from_millis(400) } else { TIMEOUT }),
             _ => None,
         }.unwrap_or_default();
         if matches!(o, Outcome::Hang) { c.req.clear(); }
@@ -183,10 +184,11 @@ pub fn seeded() -> Vec<(LinearModel, &'static str)> {
 pub fn generate(seed: u64, n: usize, _thorough: bool, _corpus: Option<&str>) -> Vec<Case> {
     let mut r = Rng::new(seed);
     let mut cases = vec![];
-    for (lm, tag) in seeded() { cases_for(&lm, tag, &mut cases); }
+    let variants = gen_lp::detect_variants();
+    for (lm, tag) in seeded() { cases_for(&lm, tag, &variants, &mut cases); }
     for i in 0..n {
         let (lm, fam) = family(&mut r, i);
-        cases_for(&lm, fam, &mut cases);
+        cases_for(&lm, fam, &variants, &mut cases);
     }
     child::shutdown();
     cases
